@@ -30,6 +30,8 @@ def run_case(case):
     rounds = case['rounds']
     ca_cfg = {'lifetimes_s': [100] * (rounds - 1) + [LONG], 'chain_lens': [1], 'delay_ms': [0, case['max_delay']], 'seed': case['i'] * 13 + 5,
               'nonce_on_get': case['nonce_on_get']}
+    if case.get('spike'):
+        ca_cfg['delay_spike'] = case['spike']
     plan = {'default': ca_cfg}
     hp = {'hold_ms': case['hook_hold']}
 
@@ -108,6 +110,20 @@ def run_case(case):
                     pb.append(('not-terminated', 'phase %d (%s): %d requests in %.0f s and the renewals of %s have not ended: %s sent %d times for %s' % (
                         pi, case['variant'], len(log), ph['wall'], missing, top[0][1], top[1], top[0][0])))
         res['attempts'] = len([h for h in run.hooks if C.hook_event(h) == 'post-operation'])
+        # bounded steps: one attempt asks for an order at most twice (the second time after re-creating an account the CA did not know)
+        for k, c in enumerate(certs):
+            key = 'dns:x%d-%d.example.org' % (case['i'], k)
+            ends = sorted(h['t_end'] for h in run.hooks if C.hook_event(h) == 'post-operation' and h.get('cert') == c['name'])
+            seg = {}
+            for r in run.ca_log:
+                if r.get('kind') == 'newOrder' and r.get('cert') == key and r.get('status') == 400 and 'accountDoesNotExist' in (r.get('resp_body') or ''):
+                    idx = len([t for t in ends if t <= r['t_recv']])
+                    seg[idx] = seg.get(idx, 0) + 1
+            res['max_orders_per_attempt'] = max([res.get('max_orders_per_attempt', 0)] + list(seg.values()))
+            for idx, cnt in seg.items():
+                if cnt > 2:
+                    pb.append(('unbounded-orders', 'certificate %s: within one attempt (its attempt %d) %d newOrder requests were answered "account does not exist"; an attempt re-creates the account once and gives up if it is still unknown' % (c['name'], idx + 1, cnt)))
+                    break
         # registrations
         def acc_name_of(r):
             # the configured account a newAccount request is for: its contact addresses carry the account name
@@ -185,7 +201,7 @@ def run_case(case):
 
 
 def gen(tier, r):
-    n_cases = 24 if tier == 'quick' else 300
+    n_cases = 32 if tier == 'quick' else 300
     cases = []
     for i in range(n_cases):
         n = r.randint(2, 8) if i > 3 else (2, 4, 6, 8)[i]
@@ -203,6 +219,13 @@ def gen(tier, r):
         if cases[-1]['variant'] == 'forget-twice' and i % 16 == 4:
             # several certificates on one account and one endpoint
             cases[-1].update(n_accs=1, n_cas=1, acc_of=[0] * n, ca_of=[0] * n)
+        if cases[-1]['variant'] == 'forget-twice' and i % 16 != 4:
+            # one account over several endpoints with occasional slow answers: certificates get parked on the account lock while a
+            # sibling's request on another endpoint is pending, and reach their orders together
+            nc = r.randint(2, 3)
+            nn = max(n, 3)
+            cases[-1].update(n=nn, n_accs=1, acc_of=[0] * nn, n_cas=nc, ca_of=[k % nc for k in range(nn)], spike=[r.choice([10, 20, 35]), 150, r.choice([400, 800])],
+                             forgets=r.randint(2, 6))
         if cases[-1]['variant'] == 'key' and i % 8 == 5:
             # one account used on every endpoint: its key roll-over reaches the endpoints one after the other
             cases[-1].update(n_accs=1, acc_of=[0] * n, n_cas=max(2, n_cas), ca_of=[k % max(2, n_cas) for k in range(n)])
@@ -230,6 +253,7 @@ def run(tier):
         patterns.setdefault(pat, set()).update(res['interleavings'])
         if res['max_parallel'] >= 2:
             chk.count('scenarios_with_overlapping_orders')
+        chk.notes['max_unknown_account_answers_to_newOrder_in_one_attempt'] = max(chk.notes.get('max_unknown_account_answers_to_newOrder_in_one_attempt', 0), res.get('max_orders_per_attempt', 0))
         chk.notes['max_orders_open_at_once'] = max(chk.notes.get('max_orders_open_at_once', 0), res['max_parallel'])
         if not res['problems']:
             chk.sample({k: c[k] for k in ('n', 'n_accs', 'n_cas', 'acc_of', 'ca_of', 'workers', 'max_delay', 'variant')} | {'registrations': res.get('registrations'), 'orders_open_at_once': res['max_parallel']})
